@@ -256,6 +256,24 @@ def h_square_unique_retry(ctx, obj):
     ctx.claim('bounds', all(0 <= v < 2 for row in rows for v in row))
 
 
+def h_concrete_many_samples(ctx):
+    """More samples than any internal block size (m up to 12000), real code: on a
+    tensor with a single non-zero entry every row is that entry's index; on a
+    tensor that vanishes outside a sub-block every row lies inside the block;
+    shape, dtype and bounds hold."""
+    ok = True
+    pos = (2, 1, 3)
+    D = teneva.delta([3, 4, 5], list(pos), 2.)
+    B = [np.array([[[1.], [2.], [0.]]]), np.array([[[0.], [1.], [3.], [0.]]]), np.array([[[2.], [0.], [0.], [1.], [0.]]])]
+    for m in (5000, 12000):
+        for fn, kw in ((teneva.sample_square, {'unique': False}), (teneva.sample, {})):
+            I = fn(D, m, seed=3, **kw)
+            ok = ok and I.shape == (m, 3) and np.issubdtype(I.dtype, np.integer) and bool(np.all(I == np.array(pos)))
+            J = fn(B, m, seed=4, **kw)
+            ok = ok and bool(np.all(J[:, 0] <= 1) and np.all((J[:, 1] == 1) | (J[:, 1] == 2)) and np.all((J[:, 2] == 0) | (J[:, 2] == 3)))
+    ctx.claim('every_row_is_a_support_index', bool(ok))
+
+
 def h_lhs(ctx, n, m, perm):
     """Latin hypercube: every index of a mode occurs floor(m/k) or ceil(m/k) times
     (all outcomes of the without-replacement draws forked)."""
@@ -344,6 +362,7 @@ def instances(tier):
                     'opts': {'generic_divisors': True}})
     for targets in ([[0, 0, 1], [1, 0, 0]], [[1, 1, 0], [0, 1, 1]]):
         out.append({'func': 'h_square_prob3', 'params': {'targets': targets}, 'opts': {'generic_divisors': True}})
+    out.append({'func': 'h_concrete_many_samples', 'params': {}, 'opts': {'concrete_only': True}})
     out.append({'func': 'h_square_unique_retry', 'params': {'obj': True}, 'opts': {'symbolic_signs': False}})
     for d, n in ([(3, 2)] if quick else [(3, 2), (4, 2), (3, 3)]):
         for t in range(n):
